@@ -229,7 +229,7 @@ func newCluster(e envSpec) (*mockcluster.Cluster, context.CancelFunc) {
 	ctx, cancel := context.WithCancel(context.Background())
 	opts := config.NewTestOptions()
 	c := mockcluster.NewCluster(ctx, opts)
-	c.SetLabelPropertyConfig(config.LabelPropertyConfig{opt.RejectLeader: {{Key: "noleader", Value: "true"}}})
+	c.SetLabelPropertyConfig(config.LabelPropertyConfig{opt.RejectLeader: {{Key: "noleader", Value: "never"}, {Key: "noleader", Value: "true"}}})
 	c.SetLocationLabels([]string{"zone", "host"})
 	switch e.Feature {
 	case 1:
